@@ -189,11 +189,19 @@ func suiteNames(o *suiteOut, r *rng, tier string, n int) {
 	if tier == "thorough" {
 		nr = 100000
 	}
+	db := readGlyphTable("zapfdingbats.txt", 0, 1, 2)
 	for i := 0; i < nr; i++ {
 		k := r.rangeInt(1, 4)
 		var parts []string
 		var want []rune
+		dingbats := r.chance(1, 4) // composites in a Zapf Dingbats font: each component is looked up there first
 		for j := 0; j < k; j++ {
+			if dingbats && r.chance(1, 2) {
+				e := db[r.intn(len(db))]
+				parts = append(parts, e[0])
+				want = append(want, parseCodes(e[1])...)
+				continue
+			}
 			switch r.intn(5) {
 			case 0:
 				v := r.intn(0xD800)
@@ -219,7 +227,7 @@ func suiteNames(o *suiteOut, r *rng, tier string, n int) {
 		if r.chance(1, 3) {
 			name += pick(r, []string{".alt", ".sc", ".", ".a_b", ".x.y"})
 		}
-		touCase(o, name, false, want, true, "components joined by underscores map to the concatenation; everything from the first period is ignored; unknown components contribute nothing")
+		touCase(o, name, dingbats, want, true, "components joined by underscores map to the concatenation; everything from the first period is ignored; unknown components contribute nothing")
 		o.count("random composite names")
 	}
 	// 5. validity: exhaustive over short strings from the alphabet, random longer ones
